@@ -6,6 +6,7 @@
 //  Distributed under the Boost Software License, Version 1.0. (See accompanying
 //  file LICENSE_1_0.txt or copy at http://www.boost.org/LICENSE_1_0.txt)
 
+#include <pika/config/verif_hooks.hpp>
 #include <pika/assert.hpp>
 #include <pika/coroutines/detail/coroutine_accessor.hpp>
 #include <pika/functional/function.hpp>
@@ -95,6 +96,7 @@ namespace pika::threads::detail {
 
     void thread_data::run_thread_exit_callbacks()
     {
+        PIKA_VERIF_POINT(::pika::verif::exit_callbacks, this);
         std::unique_lock<pika::detail::spinlock> l(spinlock_pool::spinlock_for(this));
 
         while (!exit_funcs_.empty())
